@@ -487,7 +487,7 @@ impl<'r> Gen<'r> {
                         3 => format!("{l}.insert(len({l}), {e})"),
                         4 => format!("{l} += [{e}]"),
                         5 => format!("_ = {l}.pop() if {l} else None"),
-                        6 => format!("{l}[len({l}) // 2:] = [{e}]"),
+                        6 => format!("{l}[len({l}) // 2] = {e}"),
                         _ => format!("{l}.append({e})"),
                     };
                     self.stmts.push(s);
